@@ -71,6 +71,7 @@ type ccObs struct {
 	Fatal    []string          `json:"fatal,omitempty"`
 	Infra    string            `json:"infra,omitempty"`
 	Probe    bool              `json:"probe,omitempty"`
+	Tail     string            `json:"tail,omitempty"` // extra step executed after the path left the model
 }
 
 type ccAddr string
@@ -402,6 +403,50 @@ func (w *ccWorld) finish() string {
 	return ""
 }
 
+// tail: the real controller admitted an attempt the model refuses.  To see what that admission leads to, the
+// older recorded connections with the same remote address are closed (they are dead sockets) and every attempt
+// that has not started yet is run to completion, one after the other; the real counts and the harness's own count
+// of live connections are observed after every step.
+func (w *ccWorld) tail(pi, step int, admitted string, out *vhOut) {
+	emit := func(name, c, res, errText, infra string) bool {
+		o := ccObs{Path: pi, Step: step, Res: res, Err: errText, Infra: infra, Probe: true, Tail: name + "(" + c + ")"}
+		w.observe(&o)
+		out.Emit(&o)
+		return infra == ""
+	}
+	ids := make([]string, 0, len(w.conns))
+	for id := range w.conns {
+		ids = append(ids, id)
+	}
+	sort.Strings(ids)
+	adm := w.conns[admitted]
+	for _, id := range ids {
+		c := w.conns[id]
+		if id != admitted && c.state == "saved" && c.spec.Addr == adm.spec.Addr && c.spec.Dir == adm.spec.Dir {
+			res, e, infra := w.step(ccAct{Name: "Close", C: id})
+			if !emit("Close", id, res, e, infra) {
+				return
+			}
+		}
+	}
+	for _, id := range ids {
+		c := w.conns[id]
+		if c.state != "idle" {
+			continue
+		}
+		res, e, infra := w.step(ccAct{Name: "Check", C: id})
+		if !emit("Check", id, res, e, infra) {
+			return
+		}
+		if res == "checked" {
+			res, e, infra = w.step(ccAct{Name: "Save", C: id})
+			if !emit("Save", id, res, e, infra) {
+				return
+			}
+		}
+	}
+}
+
 func TestVerifConnReplay(t *testing.T) {
 	common.Difficulty = 1
 	handshake.HANDSHAKE_DURATION = 10 * time.Minute
@@ -429,6 +474,9 @@ func TestVerifConnReplay(t *testing.T) {
 				po := ccObs{Path: pi, Step: si + 1, Res: pres, Err: perr, Infra: pinfra, Probe: true}
 				w.observe(&po)
 				out.Emit(&po)
+				if pinfra == "" && pres == "saved" {
+					w.tail(pi, si+1, a.C, out)
+				}
 				break
 			}
 			if a.Res == "rej-limit" && (res == "rej-full" || res == "rej-ip") {
